@@ -97,7 +97,7 @@ class Ctx(object):
 
     # ------------------------------------------------------------------ model runs
     def model(self, module, cfg, workers=NCPU, env=None, extra=(), timeout=3000, heap="5g",
-              expect_violation=None, simulate=None, coverage=False, count=True):
+              expect_violation=None, simulate=None, coverage=False, count=True, require_actions=()):
         """Run TLC on the bounded model.  The reference design must satisfy the
         properties (else the check is broken: MachineryError).  With
         expect_violation=<name> the run must *find* that violation (as-shipped
@@ -124,6 +124,12 @@ class Ctx(object):
                                      % (module, cfg, r.returncode, r.violated, r.tail(80)))
             self.log("model %s %s: ok, %d generated / %d distinct states, depth %d, %.1fs"
                      % (module, cfg, r.generated, r.distinct, r.depth, r.wall_s))
+        if coverage and not expect_violation:
+            never = sorted(k for k, v in r.coverage.items() if v[1] == 0)
+            missing = [a for a in require_actions if a not in r.coverage or r.coverage[a][1] == 0]
+            if missing:
+                raise MachineryError("vacuity: action(s) %s never taken in %s/%s (coverage %s)" % (missing, module, cfg, r.coverage))
+            self.log("coverage %s %s: %d actions, never taken: %s" % (module, cfg, len(r.coverage), never or "none"))
         if count:
             self.states += r.distinct
             self.transitions += r.generated
